@@ -162,7 +162,7 @@ def _main(args, pid, tier, seed, t0, mod, builds, scratch):
         while todo:
             cur = todo.pop(0)
             status, res, prog, tail, wall = run_worker(cur, scratch, cur.get("timeout", unit_timeout))
-            if status == "timeout":
+            if status in ("timeout", "exit17"):
                 # hang policy: find the case, re-run it alone with a larger limit
                 if cur.get("alone"):
                     out.append(("hang", cur, tail))
@@ -174,7 +174,8 @@ def _main(args, pid, tier, seed, t0, mod, builds, scratch):
                 one = dict(cur)
                 one["cases"] = [prog, prog + 1]
                 one["alone"] = True
-                one["timeout"] = max(120, unit_timeout)
+                one["timeout"] = cur.get("alone_timeout", 90)
+                one["case_timeout"] = one["timeout"] + 30
                 one["uid"] = "%s_h%d" % (cur["uid"], prog)
                 todo.append(one)
                 if prog > a:
